@@ -21,33 +21,53 @@ RULE = ('Hypothesis call sequences (3-25 steps) on one SqParser: parse(src), eva
         'generators interleaved; sources: valid single- and multi-line programs, lexical errors, syntax errors including '
         'unbalanced ( [ { and premature end, runtime failures, ops-limit failures, reserved words, programs that store lambdas '
         'in a persistent mapping and call them later; the host copies lambdas between mappings and pokes other mappings. '
-        'Oracle: every call gives the same result (tree / canonical value / name list), the same exception class and message '
+        'The shared parser is plain or built with a parse cache; the host binds / unbinds builtin names (len, sum) in a mapping; '
+        'failing powers and inexact divisions are among the sources. Oracle: no call changes the thread\'s decimal context in a '
+        'way that alters later results; every call gives the same result (tree / canonical value / name list), the same exception class and message '
         'and the same names as a never-used SqParser given equal arguments; an identical call repeated 30 times, and repeated '
         'after the host changed other mappings, gives the same outcome. Non-trivial: a failing call followed by a successful '
         'one on the same parser, a partially consumed generator, or a cross-call lambda; distinct by sequence.')
 ASSUMPTIONS = ['answers of the fresh world are memoised by (call, source, names contents, budget) when the names hold no '
                'callables - sound because that world never carries history']
 
-VALID = ['fz9(1)', 'match_all("a1b2", "[0-9]") | push(9)', 'match_all("a1b2", "[0-9]")', 'match_groups("ab", "(a)(b)").pop()', 'match_groups("ab", "(a)(b)")',
+VALID = ['1 / 3', 'x / 7', '2 ** 0.5', 'len(y)', 'sum(y) + len(y)', 'y | len', 'fz9(1)', 'match_all("a1b2", "[0-9]") | push(9)', 'match_all("a1b2", "[0-9]")', 'match_groups("ab", "(a)(b)").pop()', 'match_groups("ab", "(a)(b)")',
          'sorted(y) | push(0)', 'sorted(y)', 'split("a b") | push("c")', 'split("a b")', 'x + 1', 'y = [1,\n 2]\nlen(y)', 'a = 1\nb = 2\na + b', 'x = 1; y = 2\nx + y', '[1, 2] | map(v => v * x)', '{"a": [1,\n2]}',
          'z = x\nz', 'f(\n1,\n2\n)' , 'str(x) + "\\n"', '# only a comment', '', 'x if x else 0', 'q = [\n]\nq', 'k = {\n"a": 1\n}\nk["a"]']
 LEXERR = ['x $ 1', '"unterminated', 'a ? b', '%x', 'x = 1\ny = @', '\x0cx', 'x\r y']
 SYNERR = ['1 +', 'f(', 'x = (1 + 2', '[1, 2', '{"a": 1', 'x = )', 'a b', ')', 'x = [1,\n2', '(1 + 2))\nx', 'f(1, 2]]', 'del', 'x +* 2',
           '{', '((', 'a[1', 'x = (\n(\n(', ']]]', 'for', 'while x', 'a b\nc d']
-RUNERR = ['undefined_v + 1', 'x / 0', 'y[99]', 'nofn(1)', '[].pop()', 'x.push(1)', 'uu += 1', 'len(1, 2, 3)']
+RUNERR = ['(0 - 8) ** 0.5', '0 ** 0', '10 ** 1000000', '[1, 0 - 4] | map(v => v ** 0.5)', 'undefined_v + 1', 'x / 0', 'y[99]', 'nofn(1)', '[].pop()', 'x.push(1)', 'uu += 1', 'len(1, 2, 3)']
 LAMBDA_DEF = ['g = v => v + 1', 'g = v => v + x', 'g = (a, b) => a', 'g = v => 1 if v <= 1 else v * g(v - 1)', 'h = v => [v] | map(w => w * 2)']
 LAMBDA_USE = ['g(3)', 'g(x)', '[1, 2, 3] | map(g)', 'g(g(2))', 'h(2)', 'g(1) + g(2)']
 NAMES_SRC = ['a b c', 'x = f(y) + %z w%', 'p.q(r)', 'a "s" b # c', 'not_a_kw in lst', 'a\nb\nc', 'a (b [c', 'a $ b', 'one', '']
-_shared = None
+_shared = {}
 _fresh_memo = {}
 
 
-def shared():
-    global _shared
-    if _shared is None:
+def shared(kind='plain'):
+    """the long-lived parser under test; 'cached' = constructed with a parse cache (its trees are evaluated again and again)"""
+    if kind not in _shared:
         from smartquery import SqParser
-        _shared = SqParser()
-    return _shared
+        _shared[kind] = SqParser(parse_cache={}) if kind == 'cached' else SqParser()
+    return _shared[kind]
+
+
+def host_len(*a):
+    return 'host-len'
+
+
+def host_sum(*a):
+    return 'host-sum'
+
+
+HOST_FNS = {'len': host_len, 'sum': host_sum}
+CTX_PROBES = ['1 / 3', '2 ** 0.5', '(1 / 7) * 3', '0.1 + 0.2']
+
+
+def ctx_sig():
+    import decimal
+    c = decimal.getcontext()
+    return (c.prec, c.rounding, c.Emin, c.Emax, c.capitals, c.clamp, tuple(sorted(k.__name__ for k, v in c.traps.items() if v)))
 
 
 def make_names():
@@ -113,7 +133,10 @@ def cn(names):
 
 
 def run_sequence(ops, case):
-    p = shared()
+    import decimal
+    p = shared(case.get('parser', 'plain'))
+    ctx0 = decimal.getcontext().copy()
+    sig0 = ctx_sig()
     sn = make_names()        # shared world's mappings
     fn = make_names()        # fresh world's mappings
     fails = []
@@ -176,7 +199,7 @@ def run_sequence(ops, case):
                 # absolute expectation as well: process-wide hidden state would fool the fresh-parser comparison
                 try:
                     from sqv.spec import refsem
-                    rout, _ = refsem.run(neutral(shared().parse(src)), pre_names, max_ops=op[3])
+                    rout, _ = refsem.run(neutral(shared('plain').parse(src)), pre_names, max_ops=op[3])
                     if rout[0] == 'value' and canon(rout[1]) != so[1]:
                         bad('history-dependent:eval-vs-reference', f'eval({src!r}, names{op[2]}) gave {so!r}; the reference semantics give {rout[1]!r}')
                         break
@@ -185,6 +208,23 @@ def run_sequence(ops, case):
             if kind == 'eval' and op[2] is not None and cn(sn[op[2]]) != cn(fn[op[2]]):
                 bad('history-dependent:names', f'eval({src!r}) left names {sn[op[2]]!r} on the used parser, {fn[op[2]]!r} on a fresh one')
                 break
+            if ctx_sig() != sig0:
+                # the call changed the thread's decimal context: hidden state that every parser of this thread shares (the fresh-parser
+                # comparison cannot see it).  It is a violation if it changes what later calls return.
+                now = ctx_sig()
+                diffs = []
+                for probe in CTX_PROBES:
+                    a = outcome(lambda: p.eval(probe, {}), 'eval')
+                    with decimal.localcontext(ctx0):
+                        b = outcome(lambda: p.eval(probe, {}), 'eval')
+                    if a != b:
+                        diffs.append((probe, a, b))
+                decimal.setcontext(ctx0.copy())
+                _fresh_memo.clear()
+                if diffs:
+                    bad('history-dependent:decimal-context', f'{kind}({src!r}) changed the decimal context of the thread from {sig0} to {now}; '
+                        f'afterwards eval({diffs[0][0]!r}) gives {diffs[0][1]!r} instead of {diffs[0][2]!r}')
+                    break
             if so[0] == 'error':
                 last_failed = True
             else:
@@ -234,6 +274,15 @@ def run_sequence(ops, case):
                 if name in world[i]:
                     world[j][name] = world[i][name]
                     info['cross_lambda'] = info['cross_lambda'] or callable(world[i][name])
+        elif kind == 'shadow':
+            # the host binds one of the builtins' names in a mapping (or removes the binding again)
+            name, i, on = op[1], op[2], op[3]
+            for world in (sn, fn):
+                if on:
+                    world[i][name] = HOST_FNS[name]
+                else:
+                    world[i].pop(name, None)
+            info['cross_lambda'] = True
         elif kind == 'repeat':
             # an identical expression-only call repeated: identical outcomes, also after other mappings changed
             src, i, budget = op[1], op[2], op[3]
@@ -265,8 +314,7 @@ def run_sequence(ops, case):
 
 def run_case(case):
     ops = [tuple(o) for o in case['ops']]
-    global _shared
-    _shared = None          # replay starts from a new shared parser
+    _shared.clear()         # replay starts from new shared parsers
     return run_sequence(ops, case)[0]
 
 
@@ -279,6 +327,8 @@ def cases(draw):
         r = n(100)
         if r < 12:
             ops.append(('parse', pick(VALID + SYNERR + LEXERR)))
+        elif r < 20:
+            ops.append(('eval', pick(['len(y)', 'y | len', 'sum(y)', 'sum(y) + len(y)', 'y.len()', '[len(y), len([1])]', 'map([y], len)']), n(3), 100))
         elif r < 30:
             ops.append(('eval', pick(VALID + RUNERR), n(3), pick([100, 100, 1000, 4, 2])))
         elif r < 45:
@@ -301,9 +351,11 @@ def cases(draw):
             ops.append(('gen-abandon', n(4)))
         elif r < 90:
             ops.append(('copy', pick(['g', 'h', 'x']), n(3), n(3)))
+        elif r < 96:
+            ops.append(('shadow', pick(['len', 'sum']), n(3), n(3) > 0))
         else:
             ops.append(('repeat', pick(LAMBDA_USE + ['x + 1', 'len(y)']), n(3), pick([100, 100, 40])))
-    return {'ops': ops}
+    return {'ops': ops, 'parser': pick(['plain', 'cached'])}
 
 
 def jobs(tier, seed):
@@ -320,8 +372,8 @@ def run_job(job):
         fails, info = run_sequence(ops, case)
         st.add('steps', info['steps'])
         nt = info['fail_then_ok'] or info['partial_gen'] or info['cross_lambda']
-        cls = [k for k in ('fail_then_ok', 'partial_gen', 'cross_lambda') if info[k]]
-        return hyp.Result(fails, nt, cls, key=repr(ops), sample={'ops': [list(o) for o in ops][:14]})
+        cls = [k for k in ('fail_then_ok', 'partial_gen', 'cross_lambda') if info[k]] + ['parser:' + case.get('parser', 'plain')]
+        return hyp.Result(fails, nt, cls, key=repr(ops) + case.get('parser', ''), sample={'ops': [list(o) for o in ops][:14]})
 
     hyp.drive(cases(), check, st, seed=seed, max_examples=n, shrink_budget_s=40)
     return st
